@@ -1024,8 +1024,10 @@ def family_cases(thorough: bool = False) -> list[tuple]:
         for order in itertools.permutations(range(len(indices))):
             for gap in SIM_GAPS:
                 cases.append(("simfirst", tuple(indices), tuple(order), gap))
+                cases.append(("simfirst", tuple(indices), tuple(order), gap, "host"))
     for carrier in range(len(NEST_INDICES)):
         cases.append(("nested", carrier))
+    cases.append(("nested", 0, 1))
     for which_id in range(len(FC_IDS)):
         for sender in range(len(FC_SENDERS)):
             cases.append(("forged-created", which_id, sender))
@@ -1152,14 +1154,20 @@ SIM_WORLDS = [[0, 3, 4], [1, 2, 5]]        # three circuits ending at X1 / at X2
 SIM_GAPS = [0, 1, 2, 3]                    # loop iterations between two arrivals at the exit
 
 
-def _run_simfirst(seed: int, indices: tuple, order: tuple, gap: int) -> tuple[list[tuple], str, bytes, int]:
+def _run_simfirst(seed: int, indices: tuple, order: tuple, gap: int,
+                  dest: str = "ip") -> tuple[list[tuple], str, bytes, int]:
+    """dest "host": every first packet names the outside host by name, so each exit socket also runs a name lookup."""
     world = World5(len(indices), seed, list(indices), no_traffic=True)
     try:
         w = world.w
         exit_addr = tuple(world.addr[world.plans[0].exit])
+        target = OUTSIDE
+        if dest == "host":
+            w.loop.resolver["outside.example"] = [OUTSIDE[0]]
+            target = ("outside.example", OUTSIDE[1])
         for p in world.plans:
             world.seq += 1
-            w.send_out(p.origin, world.circ_obj[p.index], OUTSIDE, bt(MARK + b"/F/%d/%d" % (p.index, world.seq)))
+            w.send_out(p.origin, world.circ_obj[p.index], target, bt(MARK + b"/F/%d/%d" % (p.index, world.seq)))
         w.loop.settle()
         for _ in range(100):                                  # move every cell up to the last link
             rest = [dg for dg in w.inflight if tuple(dg.dst) != exit_addr]
@@ -1177,7 +1185,8 @@ def _run_simfirst(seed: int, indices: tuple, order: tuple, gap: int) -> tuple[li
         w.flush()
         world.injections += len(order)
         label = "SIM"
-        where = f"first packets of circuits {list(order)} reached {world.plans[0].exit} {gap} loop iterations apart"
+        where = (f"first packets of circuits {list(order)} reached {world.plans[0].exit} {gap} loop iterations apart"
+                 + (", destination given as a host name" if dest == "host" else ""))
         viol = _labelled([(o, f"{d}: {where}") for o, d in world.check()], label)
         for p in world.plans:
             sock = w.ov[p.exit].exit_sockets.get(p.ids[-1])
@@ -1197,8 +1206,13 @@ def _run_simfirst(seed: int, indices: tuple, order: tuple, gap: int) -> tuple[li
 NEST_INDICES = [0, 4, 2, 1]                # O1: two circuits through R1 and one through R2; O2: one through R1
 
 
-def _run_nested(seed: int, carrier: int) -> tuple[list[tuple], str, bytes, int]:
-    world = World5(len(NEST_INDICES), seed, NEST_INDICES)
+ZERO_ID_PLANS = [("O1", ("R1", "X1"), (0, 31)), ("O1", ("R2", "X2"), (41, 42)), ("O2", ("R1", "X2"), (51, 52))]
+
+
+def _run_nested(seed: int, carrier: int, zero: int = 0) -> tuple[list[tuple], str, bytes, int]:
+    """zero: the carrying circuit's id at its originator is 0 (a legal 32-bit circuit id like any other)."""
+    world = (World5(len(ZERO_ID_PLANS), seed, custom=ZERO_ID_PLANS) if zero
+             else World5(len(NEST_INDICES), seed, NEST_INDICES))
     try:
         w = world.w
         viol = [(f"{o}|{l}", f"[{l}] {d}") for o, d, l in world.setup_violations]
